@@ -94,7 +94,7 @@ struct Ctx {
 		va_list ap; va_start(ap, fmt);
 		char buf[4096]; vsnprintf(buf, sizeof buf, fmt, ap); va_end(ap);
 		if (failFile) { fprintf(failFile, "%s\n", buf); fflush(failFile); }
-		if (failures < 20) fprintf(stdout, "FAIL %s\n", buf);
+		if (failures < 20) { fprintf(stdout, "FAIL %s\n", buf); fflush(stdout); }
 		++failures;
 	}
 	int finish() {
